@@ -10,9 +10,19 @@ type Ctx struct {
 	// Skip names trigger predicates of open known findings: generators steer
 	// around scenarios matching them.
 	Skip map[string]bool
+	// Beat, if set, tells the watchdog that the run is alive (long runs on
+	// long documents call it between schedules).
+	Beat func()
 	// Obs is a digest of what the run observed (outputs, events, results); it
 	// is part of the per-run digest compared by the determinism self-test.
 	Obs uint64
+}
+
+// Alive signals progress to the watchdog.
+func (x *Ctx) Alive() {
+	if x != nil && x.Beat != nil {
+		x.Beat()
+	}
 }
 
 // Observe folds observed output into the run digest.
